@@ -7,6 +7,10 @@
                                                     process killed, next process opens the file
        label: X (row added) Xi (ignored duplicate) X! (IntegrityError) C (real commit) D (deferred commit)
               R (returned) en ex exC xx ;  rows / acks are printed as `=` when unchanged from the previous entry
+  tlc <call> …                the same timeline in compact form (long workloads):
+                              `order=<rows>;acks=<ids>;init|0|0;label|#acks|#rows;…` or `nonmonotone`
+  reload <id>:<prev|-> …      the ids in the rebuilt token tree after PseudonymManager.__init__ read the stored tokens
+                              in this order (generated reload mode)
   causal d:<t>.<k>><t>.<k> … <call> …   does the workload write every record after the one it points to (dependency
                               table given by the d: tokens; absent = genesis)?  `true` | `false`
   open <cls> <option> <version> <n>   a file whose option table / version row exist or not; an open() is killed after
@@ -106,6 +110,49 @@ def timeline (C : CommitMethod) (W : List Call) : String :=
       s!"{lab}|{a}|{r}" :: render db rest
   ";".intercalate ("init||" :: render Db.init es)
 
+/-- one incremental walk over the workload with the model's own `stepPrim` (the state after `j` primitives of call
+    `k` is `crashAt C W k j` by unfolding `runPrims`/`runCalls`); used for long workloads where recomputing `crashAt`
+    per entry is too slow -/
+def walk (C : CommitMethod) (W : List Call) : List (String × Db) :=
+  let rec prims (c : Call) (ps : List Prim) (db : Db) (acc : List (String × Db)) : List (String × Db) × Db :=
+    match ps with
+    | [] => (acc, db)
+    | p :: ps =>
+      let lab := label C c p db
+      match stepPrim C c p db with
+      | (db', .running) => prims c ps db' ((lab, db') :: acc)
+      | (db', _) => ((lab, db') :: acc, db')
+  let rec calls (cs : List Call) (db : Db) (acc : List (String × Db)) : List (String × Db) :=
+    match cs with
+    | [] => acc.reverse
+    | c :: cs =>
+      let (acc', db') := prims c c.ops db acc
+      calls cs db' acc'
+  calls W Db.init []
+
+/-- compact timeline: the final durable rows and ack list once, then per entry `label|#acks|#durable rows`; valid when
+    both only ever grow (no OR REPLACE): checked, otherwise `nonmonotone` -/
+def timelineCompact (C : CommitMethod) (W : List Call) : String :=
+  let es := walk C W
+  let final : Db := match es.getLast? with
+    | some (_, db) => db
+    | none => Db.init
+  let mono := es.all (fun (_, db) =>
+    final.durable.take db.durable.length == db.durable && final.acks.take db.acks.length == db.acks)
+  if !mono then "nonmonotone"
+  else
+    let ents := es.map (fun (lab, db) => s!"{lab}|{db.acks.length}|{db.durable.length}")
+    s!"order={showRows final.durable};acks={showNats final.acks};" ++ ";".intercalate ("init|0|0" :: ents)
+
+def parseTok (s : String) : Option Tok :=
+  match Proto.splitChar s ':' with
+  | [a, b] => do
+    let a ← a.toNat?
+    if b == "-" then pure ⟨a, none⟩ else do
+      let b ← b.toNat?
+      pure ⟨a, some b⟩
+  | _ => none
+
 def bit? (s : String) : Option Bool :=
   match s with
   | "0" => some false
@@ -118,6 +165,12 @@ def step (_ : Unit) (toks : List String) : Unit × String :=
     | "tl" :: calls => do
       let W ← parseCalls 0 calls
       pure (timeline Gen.commitMethod W)
+    | "tlc" :: calls => do
+      let W ← parseCalls 0 calls
+      pure (timelineCompact Gen.commitMethod W)
+    | "reload" :: toks => do
+      let ts ← toks.mapM parseTok
+      pure (Proto.showNatList (reload Gen.reloadMode ts))
     | ["open", cls, o, v, n] => do
       let o ← bit? o
       let v ← bit? v
